@@ -7,8 +7,10 @@ package wsrpc
 
 import (
 	"context"
+	"crypto/tls"
 	"errors"
 	"fmt"
+	"net"
 	"strings"
 	"sync"
 	"testing"
@@ -503,6 +505,55 @@ func vUniRetryCase(r *vRand) {
 		Info: map[string]interface{}{"dials": len(ds), "outcome": res, "waits_ns": waits}})
 }
 
+// the client as its constructor builds it: every (re)connection it makes pauses as the model says - the pauses of one
+// connection attempt series start at one second whatever an earlier series of the same client did (which gave up during a pause)
+func vUniRetryAgain(r *vRand) {
+	lis, err := net.Listen("tcp", "127.0.0.1:0")
+	if err != nil {
+		return
+	}
+	target := lis.Addr().String()
+	lis.Close() // nobody listens there: every dial is refused at once
+	uc := NewTLSUniClientConn(vNopLogger{}, target, &tls.Config{InsecureSkipVerify: true})
+	for series := 0; series < 3; series++ {
+		cancelAt := 1 + r.Intn(4)
+		ctx, cancel := context.WithCancel(context.Background())
+		vTimeMu.Lock()
+		vTimeWaits = nil
+		vTimeHook = func(k int, d time.Duration) <-chan time.Time {
+			if k-1 == cancelAt {
+				cancel()
+				return make(chan time.Time)
+			}
+			ch := make(chan time.Time, 1)
+			ch <- time.Now()
+			return ch
+		}
+		vTimeMu.Unlock()
+		_, cerr := uc.connectFn(ctx)
+		cancel()
+		vTimeMu.Lock()
+		waits := vTimeWaits
+		vTimeHook = nil
+		vTimeMu.Unlock()
+		var ds []string
+		for i := 0; i < cancelAt; i++ {
+			ds = append(ds, "DialErr false")
+		}
+		ds = append(ds, "DialErr true")
+		res := "CStuck"
+		if errors.Is(cerr, context.Canceled) {
+			res = "CtxEnded"
+		}
+		ws := make([]string, len(waits))
+		for j, w := range waits {
+			ws[j] = vCoqZ(int64(w))
+		}
+		vEmit(vCase{Class: "retry", Coq: fmt.Sprintf("CRetry %s %s %s", vCoqList(ds), res, vCoqList(ws)), Sig: fmt.Sprintf("constructed/%d/%s", series, strings.Join(ds, ";")),
+			Info: map[string]interface{}{"dials": len(ds), "outcome": res, "waits_ns": waits, "series_of_the_same_client": series}})
+	}
+}
+
 // blocking connection for the cancellation / serialisation monitors
 type vBlockConn struct {
 	mu      sync.Mutex
@@ -547,6 +598,9 @@ func TestVerifC20(t *testing.T) {
 	}
 	for i := 0; i < m; i++ {
 		vUniRetryCase(r)
+	}
+	for i := 0; i < 4; i++ {
+		vUniRetryAgain(r)
 	}
 	// deadlines across in-call reconnects, on connections which honour them (ga_uni_test.go)
 	vGaUniDeadlineScenarios()
